@@ -70,6 +70,31 @@ pub mod probes {
     }
 }
 
+/// rolling hash over (task, seam operation, outcome): identifies the interleaving a run took
+pub mod trace {
+    use ::std::sync::atomic::{AtomicU64, Ordering};
+    static H: AtomicU64 = AtomicU64::new(0xcbf2_9ce4_8422_2325);
+    static N: AtomicU64 = AtomicU64::new(0);
+    static TASKS: AtomicU64 = AtomicU64::new(0);
+    pub fn reset() {
+        TASKS.store(0, Ordering::Relaxed);
+        H.store(0xcbf2_9ce4_8422_2325, Ordering::Relaxed);
+        N.store(0, Ordering::Relaxed);
+    }
+    #[inline]
+    pub fn op(kind: u8) {
+        let t = shuttle::current::get_current_task().map(usize::from).unwrap_or(0xff) as u64;
+        let h = H.load(Ordering::Relaxed);
+        H.store((h ^ ((t << 8) | kind as u64)).wrapping_mul(0x0000_0100_0000_01B3), Ordering::Relaxed);
+        N.fetch_add(1, Ordering::Relaxed);
+        TASKS.fetch_or(1u64 << (t & 63), Ordering::Relaxed);
+    }
+    /// (hash, number of seam operations, number of distinct tasks that performed one)
+    pub fn get() -> (u64, u64, u32) {
+        (H.load(Ordering::Relaxed), N.load(Ordering::Relaxed), TASKS.load(Ordering::Relaxed).count_ones())
+    }
+}
+
 pub mod knobs {
     use ::std::sync::atomic::{AtomicUsize, Ordering};
     use ::std::sync::Mutex;
@@ -140,6 +165,7 @@ pub mod std {
             T: Send + 'static,
         {
             probes::hit(probes::SPAWN);
+            crate::trace::op(1);
             let done = Arc::new(AtomicBool::new(false));
             let guard = DoneGuard(done.clone());
             let inner = shuttle::thread::spawn(move || {
@@ -154,6 +180,7 @@ pub mod std {
         /// the threads it waits for under priority schedulers); sleep(0) is a plain switch point.
         pub fn sleep(dur: ::std::time::Duration) {
             probes::hit(probes::SLEEP);
+            crate::trace::op(2);
             clock::advance(dur.as_nanos() as u64);
             if dur.is_zero() {
                 shuttle::thread::sleep(dur);
@@ -270,6 +297,7 @@ pub mod std {
                 pub fn send(&self, t: T) -> Result<(), SendError<T>> {
                     probes::hit(probes::BLOCKING_SEND);
                     let r = self.inner.send(t);
+                    crate::trace::op(if r.is_ok() { 3 } else { 4 });
                     if r.is_err() {
                         probes::hit(probes::SEND_DISCONNECTED);
                     }
@@ -277,6 +305,11 @@ pub mod std {
                 }
                 pub fn try_send(&self, t: T) -> Result<(), TrySendError<T>> {
                     let r = self.inner.try_send(t);
+                    crate::trace::op(match &r {
+                        Ok(_) => 5,
+                        Err(TrySendError::Full(_)) => 6,
+                        Err(TrySendError::Disconnected(_)) => 7,
+                    });
                     match &r {
                         Ok(_) => probes::hit(probes::TRY_SEND_OK),
                         Err(TrySendError::Full(_)) => probes::hit(probes::TRY_SEND_FULL),
@@ -294,10 +327,18 @@ pub mod std {
             }
             impl<T> Receiver<T> {
                 pub fn recv(&self) -> Result<T, RecvError> {
-                    self.inner.recv()
+                    let r = self.inner.recv();
+                    crate::trace::op(if r.is_ok() { 8 } else { 9 });
+                    r
                 }
                 pub fn try_recv(&self) -> Result<T, TryRecvError> {
-                    self.inner.try_recv()
+                    let r = self.inner.try_recv();
+                    crate::trace::op(match &r {
+                        Ok(_) => 10,
+                        Err(TryRecvError::Empty) => 11,
+                        Err(TryRecvError::Disconnected) => 12,
+                    });
+                    r
                 }
                 /// honest timeout: look, let the scheduler decide whether a producer runs while
                 /// the simulated timeout elapses, look again.
